@@ -139,6 +139,105 @@ func verifLemmaMaxBodyTight(c *channelInstance, m *Message, chunkSize int, chunk
 //@   ensures [C11:stored] c.sequenceNumber == result && result <= 4294966272 && result != 0
 //@   canary ensures [C11:canary-nowrap] result == old(c.sequenceNumber) + 1
 
+// The number of the k-th chunk after a chunk numbered s (Part 6: +1 per chunk, wrapping to 1 before
+// the last 1024 values).
+//@ ufunc seqAfter(uint32, int) uint32
+//@ axiom seqAfter0: forall s uint32 :: { seqAfter(s, 0) } seqAfter(s, 0) == s
+//@ axiom seqAfterS: forall s uint32, k int :: { seqAfter(s, k+1) } 0 <= k ==>
+//@     seqAfter(s, k+1) == ite(seqAfter(s, k) < 4294966272, seqAfter(s, k) + 1, 1)
+
+//@ pred seqInv(c *channelInstance) := c != nil && c.sequenceNumber <= 4294966272 && c.sc != nil && c.sc.cfg != nil
+
+// environment of the senders (assumed): encoding and registry lookups do not touch channel state
+//@ func github.com/gopcua/opcua/ua.ServiceTypeID
+//@   assumed
+//@   assigns nothing
+//@ func (*SecureChannel).timeNow
+//@   assumed
+//@   assigns nothing
+//@ func github.com/gopcua/opcua/ua.Request.SetHeader
+//@   assumed
+//@   params r h
+//@   assigns allbut channelInstance SecureChannel Config Message MessageHeader SequenceHeader Header
+//@ func (*Message).EncodeChunks
+//@   props C11 C07
+//@   assumed
+//@   requires m != nil && m.MessageHeader != nil && m.MessageHeader.Header != nil
+//@   assigns m.MessageHeader.Header.MessageSize, m.MessageHeader.Header.ChunkType
+//@   ensures err == nil ==> len(result0) >= 1
+
+// frame of signAndEncrypt for every message kind (the main contract above is for symmetric messages)
+//@ func (*channelInstance).signAndEncrypt@frame
+//@   props C11
+//@   frame_only
+//@   requires c != nil && c.sc != nil && c.sc.cfg != nil && c.algo != nil && m != nil && m.MessageHeader != nil
+//@   assigns m.MessageHeader.Header.MessageSize, elems(b), c.algo.signature, c.algo.encrypt
+//@   loop 0 invariant arr(b) == arr(old(b)) || fresh(b)
+//@   loop 0 invariant c != nil && c.algo != nil && m != nil && m.MessageHeader != nil
+
+//@ func (*channelInstance).newMessage
+//@   props C11
+//@   frame_only
+//@   requires seqInv(c)
+//@   requires [locked] held(&c.Mutex)
+//@   assigns c.sequenceNumber
+//@   ensures [C11:message-number] result != nil && result.MessageHeader != nil && result.MessageHeader.Header != nil && result.MessageHeader.SequenceHeader != nil &&
+//@           result.MessageHeader.SequenceHeader.SequenceNumber == c.sequenceNumber
+//@   ensures [C11:step] c.sequenceNumber == seqAfter(old(c.sequenceNumber), 1) && seqInv(c)
+//@   uses seqAfter0, seqAfterS
+
+//@ func (*channelInstance).newRequestMessage
+//@   props C11
+//@   frame_only
+//@   requires seqInv(c)
+//@   requires [locked] held(&c.Mutex)
+//@   assigns allbut channelInstance SecureChannel Config
+//@   assigns c.sequenceNumber
+//@   ensures [C11:message-number] err == nil ==> result0 != nil && result0.MessageHeader != nil && result0.MessageHeader.Header != nil && result0.MessageHeader.SequenceHeader != nil &&
+//@           result0.MessageHeader.SequenceHeader.SequenceNumber == c.sequenceNumber
+//@   ensures [C11:step] err == nil ==> c.sequenceNumber == seqAfter(old(c.sequenceNumber), 1) && seqInv(c)
+//@   ensures [C11:error-no-number] err != nil ==> c.sequenceNumber == old(c.sequenceNumber)
+//@   uses seqAfter0, seqAfterS
+
+// Writing the chunks of one message: the caller holds the instance lock and has just numbered the
+// message; the lock is never released in between (no other message's chunk can be interleaved on this
+// instance) and chunk k carries the k-th number after the first.
+//@ func (*SecureChannel).writeMessageChunks
+//@   props C11
+//@   frame_only
+//@   use (*channelInstance).signAndEncrypt@frame
+//@   uses seqAfter0, seqAfterS
+//@   requires s != nil && s.c != nil && seqInv(instance) && instance.algo != nil
+//@   requires m != nil && m.MessageHeader != nil && m.MessageHeader.Header != nil && m.MessageHeader.SequenceHeader != nil
+//@   requires [locked] held(&instance.Mutex)
+//@   requires [C11:just-numbered] m.MessageHeader.SequenceHeader.SequenceNumber == instance.sequenceNumber
+//@   let s0 = instance.sequenceNumber
+//@   let rel0 = released(&instance.Mutex)
+//@   assigns allbut SecureChannel Config
+//@   ensures [C11:lock-kept] held(&instance.Mutex) && released(&instance.Mutex) == rel0
+//@   loop 0 invariant -1 <= rangeindex && rangeindex < len(chunks)
+//@   loop 0 invariant s != nil && s.c != nil && seqInv(instance) && instance.algo != nil && m != nil && m.MessageHeader != nil
+//@   loop 0 invariant [C11:lock-kept] held(&instance.Mutex) && released(&instance.Mutex) == rel0
+//@   loop 0 invariant [C11:consecutive] instance.sequenceNumber == seqAfter(s0, ite(rangeindex < 0, 0, rangeindex))
+
+//@ func (*SecureChannel).sendResponseWithContext
+//@   props C11
+//@   frame_only
+//@   requires s != nil && s.c != nil
+//@   requires instance != nil ==> seqInv(instance) && instance.algo != nil
+//@   assigns *
+//@   after "s.getActiveChannelInstance()" assigns nothing
+//@   after "s.getActiveChannelInstance()" ensures result1 == nil ==> seqInv(result0) && result0.algo != nil
+
+//@ func (*SecureChannel).SendMsgWithContext
+//@   props C11
+//@   frame_only
+//@   requires s != nil && s.c != nil
+//@   requires instance != nil ==> seqInv(instance) && instance.algo != nil
+//@   assigns *
+//@   after "s.getActiveChannelInstance()" assigns nothing
+//@   after "s.getActiveChannelInstance()" ensures result1 == nil ==> seqInv(result0) && result0.algo != nil
+
 // ---------------------------------------------------------------------------
 // C12: reassembly of chunk streams
 // ---------------------------------------------------------------------------
